@@ -19,8 +19,16 @@ def plan(tier):
             'time_cap_s': 45 if tier == 'quick' else 560}
 
 
+BIG = 99999999999999999      # an "uncapacitated" quota; not representable as a double
+
+
 def run_case(cs, ctx):
-    r = lc.lp_case(cs, ctx, PROFILE)
+    prof = PROFILE
+    if cs % 40 == 9:
+        prof = dict(PROFILE, name='c11big', big_quota=True, shipped_rate=0, large_rate=0,
+                    opts={'crit_pool': ['maxsize', 'minsize', 'gen', 'gre', 'mincost'], 'ncrit_choices': [0, 1, 2]})
+        ctx.cov('uncapacitated_huge_quota')
+    r = lc.lp_case(cs, ctx, prof)
     f = r['facts']
     if f.get('status') == 'Optimal' and r['ex']['long'] is not None:
         from .. import outparse as op
